@@ -2,6 +2,10 @@ import OrsoVerif.Lemmas.IsoText
 import OrsoVerif.Lemmas.IsoSafe
 import OrsoVerif.Lemmas.IsoEpoch
 import OrsoVerif.Lemmas.IsoEpochTotal
+import OrsoVerif.Lemmas.IsoRefine
+import OrsoVerif.Lemmas.IsoChar
+import OrsoVerif.Lemmas.IsoSound
+import OrsoVerif.Lemmas.IsoTail
 /-!
 # C08 — Timestamp parsing round-trips ISO-8601 and epoch forms and is total
 
@@ -11,6 +15,45 @@ offsets, windows and the `except` tuple it uses are `Gen.Iso.*`, regenerated fro
 -/
 namespace C08
 open Iso
+
+/-! ## Non-vacuity and documented boundaries (concrete inputs; placed first so that a failing example is not
+attributed to a theorem) -/
+
+/-- Named tails of `seconds_form_any_tail`: read … -/
+example : tailRead ".123456789Z".toList = true ∧ tailRead ".1".toList = true ∧ tailRead "+0530".toList = true ∧
+    tailRead "-0530".toList = true ∧ tailRead "+05".toList = true ∧ tailRead "-05".toList = true ∧
+    tailRead ".123456+05:30".toList = true ∧ tailRead ".1234567+05:30".toList = true ∧
+    tailRead ".123456-05:30".toList = true ∧ tailRead "Z".toList = true ∧ tailRead "+05:30Z".toList = true ∧
+    tailRead " UTC".toList = true := by decide
+/-- … and not read: 34 characters and more, or more than 28 characters before the `+`. -/
+example : tailRead ".123456789+05:00".toList = false ∧ tailRead ".1234567890+1".toList = false ∧
+    tailRead ".12345678901234".toList = false := by decide
+example : parseIso (.str "2024-02-29 23:59:58.123456789Z".toList) = .value ⟨2024, 2, 29, 23, 59, 58, 0⟩ := by decide
+example : parseIso (.str "9999-12-31T23:59:59-1200".toList) = .value ⟨9999, 12, 31, 23, 59, 59, 0⟩ := by decide
+example : parseIso (.str "2024-02-29T23:59:58.123456789+05:00".toList) = .none := by decide
+example : cutTail "+05:30Z".toList = [] ∧ cutTail "Z".toList = [] ∧ cutTail "-05:00".toList = "-05:00".toList ∧
+    cutTail ":5".toList = ":5".toList := by decide
+example : parseIso (.str "2023-04-18".toList) = .value ⟨2023, 4, 18, 0, 0, 0, 0⟩ ∧
+    slice "2023-04-18".toList (0, 4) = "2023".toList := by decide
+example : parseIso (.str "12:34:56".toList) = .none ∧ parseIso (.str "2023/04/18 12:34:56".toList) = .none := by decide
+
+
+example : validDateTime ⟨2024, 2, 29, 23, 59, 58, 123456⟩ = true := by decide
+example : String.ofList (render ⟨2024, 2, 29, 23, 59, 58, 123456⟩ 'T' 3 (.plus 5 30))
+    = "2024-02-29T23:59:58.123+05:30" := by decide
+example : parseIso (.str "2024-02-29T23:59:58.123+05:30".toList) = .value ⟨2024, 2, 29, 23, 59, 58, 0⟩ := by
+  decide
+example : parseIso (.str "0001-01-01 00:00:00.000000-11:59".toList) = .value ⟨1, 1, 1, 0, 0, 0, 0⟩ := by decide
+example : toEpoch ⟨2024, 2, 29, 23, 59, 58, 0⟩ = 1709251198 := by decide
+example : parseIso (.int 1709251198) = .value ⟨2024, 2, 29, 23, 59, 58, 0⟩ := by decide
+example : parseIso (.int (-62135596800)) = .value ⟨1, 1, 1, 0, 0, 0, 0⟩ := by decide
+/-- Boundary by the code's own design: the minute form with a `-HH:MM` suffix is not read. -/
+example : parseIso (.str "2023-04-18T12:34-05:00".toList) = .none := by decide
+example : parseIso (.str "2023-02-29".toList) = .none := by decide
+
+
+/-! ## Theorems -/
+
 
 /-- **The generated guards accept the canonical renderings.**  Every expression lifted from
 `parse_iso` on this run (`Gen.Iso`: the two length windows, the dash / separator / seconds tests
@@ -46,10 +89,87 @@ theorem guards_cover_subscripts_and_exceptions : Iso.Covers where
   sec := by intro n h; unfold Gen.Iso.secLenTest at h; simp only [Gen.Iso.colonB]; omega
   arity := by decide
 
+/-- **The generated guards reject everything else.**  The converse side of the guards lifted from
+`parse_iso` on this run: lengths above 33 fail the window, more than 28 characters before the `+`
+fail the second window, a character other than `-` at offset 4 or 7 makes the dash test reject,
+lengths 11..15 select no form, the date form needs at least 10 characters, the minute form is not
+selected by more than 16, the seconds form needs 19 characters and `:` at offset 16. -/
+theorem guards_reject_everything_else : Iso.Rejects where
+  windowHi := by intro n h; unfold Gen.Iso.lenWindow; omega
+  plusHi := by intro n h; unfold Gen.Iso.plusReject; omega
+  dash := by
+    intro a b h
+    have ha : ∀ c, c ≠ '-' → decide (Gen.Iso.dashTestA c) = true :=
+      fun c hc => decide_eq_true (by unfold Gen.Iso.dashTestA; exact hc)
+    have hb : ∀ c, c ≠ '-' → decide (Gen.Iso.dashTestB c) = true :=
+      fun c hc => decide_eq_true (by unfold Gen.Iso.dashTestB; exact hc)
+    rcases h with h | h
+    · simp [scb, Gen.Iso.dashJoinAnd, ha a h]
+    · simp [scb, Gen.Iso.dashJoinAnd, hb b h]
+  midLen := by intro n h1 h2; unfold Gen.Iso.dateLenTest Gen.Iso.timeLenTest; omega
+  dateLo := by intro n h; unfold Gen.Iso.dateLenTest at h; omega
+  minHi := by intro n h; unfold Gen.Iso.minLenTest; omega
+  secLo := by intro n h; unfold Gen.Iso.secLenTest; omega
+  secChar := by intro c h; unfold Gen.Iso.secCharTest; exact h
+
+set_option linter.unusedSimpArgs false in
+/-- **The generated string branch refines the skeleton (join point).**  `Gen.IsoText.textBranch_j1`
+— the statements of `parse_iso` after the `+` split (`val_len = len(value)`, the dash test, the three
+`val_len` cases with their subscripts, short-circuit order, slices and fall-through `return None`),
+translated statement by statement from the AST on this run — computes, on every text, what the
+hand skeleton `Iso.shaped` computes (the same result, the same exception). -/
+theorem text_branch_join_refines_shaped (v : List Char) : Gen.IsoText.textBranch_j1 v = shaped v := by
+  unfold Gen.IsoText.textBranch_j1 shaped dashReject sepReject hasSeconds
+  simp (disch := omega) only [pyIdx_nonneg, pySlice_bounds, pySlice_upto, Int.reduceToNat, pyOr_idx, pyAnd_idx, pyAnd_ok,
+    pyOr_ok, ← datetimeOfStrs_slices, Gen.Iso.slicesDate, Gen.Iso.slicesSec, Gen.Iso.slicesMin, List.map,
+    Gen.Iso.dashA, Gen.Iso.dashB, Gen.Iso.dashJoinAnd, Gen.Iso.dashTestA, Gen.Iso.dashTestB,
+    Gen.Iso.dateLenTest, Gen.Iso.timeLenTest, Gen.Iso.minLenTest, Gen.Iso.sepIdx, Gen.Iso.colonA, Gen.Iso.sepJoinAnd,
+    Gen.Iso.sepTestA, Gen.Iso.sepTestB, Gen.Iso.secLenTest, Gen.Iso.colonB, Gen.Iso.secCharTest, decide_eq_true_eq]
+
+set_option linter.unusedSimpArgs false in
+/-- **The generated string branch is the skeleton.**  `Gen.IsoText.textBranch` — the whole string
+branch of `parse_iso` (`if input_type == str and 10 <= len(value) <= 33:` … `return None`: the length
+window, `value[-1] == "Z"` and `value[:-1]`, `"+" in value`, `value.split("+")[0]`, the second
+window, then the join point above), regenerated from the source on this run and *run by*
+`Iso.parseIso` — equals the hand-written `Iso.textPath` on every text.  All theorems below are
+therefore statements about the program the source contains now; a change of the order of the
+tests, of a strip or a slice, or a new statement, breaks this theorem. -/
+theorem text_branch_refines_skeleton : Iso.Refines where
+  text := by
+    intro v
+    unfold Gen.IsoText.textBranch textPath
+    by_cases h : Gen.Iso.lenWindow (v.length : Int)
+    · have h' := h
+      unfold Gen.Iso.lenWindow at h'
+      rw [if_pos h, if_pos (decide_eq_true h'), pyIdx_neg_one]
+      cases hl : v.getLast? with
+      | none =>
+        rw [List.getLast?_eq_none_iff] at hl
+        subst hl
+        simp at h'
+      | some c =>
+        simp only [bind_ok, Option.some.injEq, decide_eq_true_eq, pySlice_dropLast, pySplitHead,
+          text_branch_join_refines_shaped, Gen.Iso.zChar, Gen.Iso.plusChar]
+        generalize (if c = 'Z' then v.dropLast else v) = w
+        by_cases hc : w.contains '+' = true
+        · rw [if_pos hc, if_pos hc]
+          generalize (List.takeWhile (fun x => x != '+') w) = u
+          by_cases h2 : Gen.Iso.plusReject (u.length : Int)
+          · have h2' := h2
+            unfold Gen.Iso.plusReject at h2'
+            rw [if_pos h2, if_pos (by simp only [Bool.not_eq_true', decide_eq_false_iff_not, decide_eq_true_eq]; exact h2')]
+          · have h2' := h2
+            unfold Gen.Iso.plusReject at h2'
+            rw [if_neg h2, if_neg (by simp only [Bool.not_eq_true', decide_eq_false_iff_not, decide_eq_true_eq]; exact h2')]
+        · rw [if_neg hc, if_neg hc]
+    · have h' := h
+      unfold Gen.Iso.lenWindow at h'
+      rw [if_neg h, if_neg (by simp only [decide_eq_true_eq]; exact h')]
+
 /-- **ISO round trip, seconds form.**  For every valid date-time of years 1..9999, separator `T`
 or space, any number `k` of fraction digits (the first `k` of the six microsecond digits; `k = 0`
-means no fraction), and suffix none / `Z` / `+HH:MM` / `-HH:MM`, parsing the rendering returns the
-wall-clock time truncated to whole seconds. -/
+means no fraction), and suffix none / `Z` / `+HH:MM` / `-HH:MM` / `+HHMM` / `-HHMM` / `+HH` / `-HH`,
+parsing the rendering returns the wall-clock time truncated to whole seconds. -/
 theorem iso_roundtrip (dt : DateTime) (h : validDateTime dt = true) (sep : Char)
     (hsep : sep = 'T' ∨ sep = ' ') (k : Nat) (suf : Suffix) :
     parseIso (.str (render dt sep k suf)) = .value (truncSeconds dt) := by
@@ -60,7 +180,7 @@ theorem iso_roundtrip (dt : DateTime) (h : validDateTime dt = true) (sep : Char)
   have hnd : isDigitStr (render dt sep k suf) = false := by
     simp only [render, renderSecond, renderMinute, List.append_assoc]
     exact notDigit_renderDate _ _ _ _
-  apply parseIso_text _ hnd
+  apply parseIso_text text_branch_refines_skeleton _ hnd
   unfold render
   cases suf with
   | none =>
@@ -84,6 +204,51 @@ theorem iso_roundtrip (dt : DateTime) (h : validDateTime dt = true) (sep : Char)
       (by simp [pad2]; omega)]
     rw [List.append_assoc]
     exact shaped_second guards_accept_canonical_renderings dt h sep hsep _
+  | plusBasic hh mm =>
+    obtain ⟨p3, l3⟩ := plain_offsetBasic hh mm
+    have e : Suffix.text (.plusBasic hh mm) = '+' :: (pad2 hh ++ pad2 mm) := rfl
+    rw [e, textPath_plus guards_accept_canonical_renderings _ _ p12 (plain_split p3).1 (by simp; omega) (by simp; omega) (by simp [pad2]; omega)]
+    exact shaped_second guards_accept_canonical_renderings dt h sep hsep _
+  | minusBasic hh mm =>
+    obtain ⟨p3, l3⟩ := plain_offsetBasic hh mm
+    have hm : plainC '-' = true := by decide
+    have e : Suffix.text (.minusBasic hh mm) = '-' :: (pad2 hh ++ pad2 mm) := rfl
+    rw [e, textPath_plain guards_accept_canonical_renderings _ (by rw [List.all_append, p12, List.all_cons, hm, p3]; rfl) (by simp; omega)
+      (by simp [pad2]; omega)]
+    rw [List.append_assoc]
+    exact shaped_second guards_accept_canonical_renderings dt h sep hsep _
+  | plusHour hh =>
+    obtain ⟨p3, l3⟩ := plain_pad2 hh
+    have e : Suffix.text (.plusHour hh) = '+' :: pad2 hh := rfl
+    rw [e, textPath_plus guards_accept_canonical_renderings _ _ p12 (plain_split p3).1 (by simp; omega) (by simp; omega) (by simp [pad2]; omega)]
+    exact shaped_second guards_accept_canonical_renderings dt h sep hsep _
+  | minusHour hh =>
+    obtain ⟨p3, l3⟩ := plain_pad2 hh
+    have hm : plainC '-' = true := by decide
+    have e : Suffix.text (.minusHour hh) = '-' :: pad2 hh := rfl
+    rw [e, textPath_plain guards_accept_canonical_renderings _ (by rw [List.all_append, p12, List.all_cons, hm, p3]; rfl) (by simp; omega)
+      (by simp [pad2]; omega)]
+    rw [List.append_assoc]
+    exact shaped_second guards_accept_canonical_renderings dt h sep hsep _
+
+/-- **Seconds form followed by any tail — the exact set of accepted tails.**  For every valid
+date-time, separator `T` or space and *every* text `t` after `YYYY-MM-DD<sep>HH:MM:SS`: the parser
+returns the wall-clock time in whole seconds when `tailRead t` — at most 14 more characters and,
+if a `+` remains after dropping a final `Z`, at most 9 characters before the first `+` — and `None`
+otherwise.  This covers fractions of any length (`.1` … `.123456789`), `Z`, `+HH:MM`, `+HHMM`,
+`+HH`, `-HH:MM`, `-HHMM`, `-HH`, a fraction followed by any of them, and also says exactly where
+the reading stops (e.g. nine fraction digits plus `+05:00` is 35 characters: `None`). -/
+theorem seconds_form_any_tail (dt : DateTime) (h : validDateTime dt = true) (sep : Char)
+    (hsep : sep = 'T' ∨ sep = ' ') (t : List Char) :
+    parseIso (.str (renderSecond dt sep ++ t))
+      = if tailRead t then .value (truncSeconds dt) else .none := by
+  have hnd : isDigitStr (renderSecond dt sep ++ t) = false := by
+    simp only [renderSecond, renderMinute, List.append_assoc]
+    exact notDigit_renderDate _ _ _ _
+  have ht := textPath_secondTail guards_accept_canonical_renderings guards_reject_everything_else dt h sep hsep t
+  simp only [parseIso, parseIsoWith, body, strBody, hnd, text_branch_refines_skeleton.text, ht,
+    Bool.false_eq_true, if_false]
+  cases tailRead t <;> rfl
 
 /-- **Minute-precision form** `YYYY-MM-DD<sep>HH:MM` (optionally followed by `Z` or `+HH:MM`)
 returns the corresponding minute. -/
@@ -97,7 +262,7 @@ theorem minute_form (dt : DateTime) (h : validDateTime dt = true) (sep : Char)
   have hnd : isDigitStr (renderMinute dt sep ++ suf.text) = false := by
     simp only [renderMinute, List.append_assoc]
     exact notDigit_renderDate _ _ _ _
-  apply parseIso_text _ hnd
+  apply parseIso_text text_branch_refines_skeleton _ hnd
   rw [textPath_dropped guards_accept_canonical_renderings _ p1 (by omega) (by omega) suf hs]
   exact shaped_minute guards_accept_canonical_renderings { dt with second := 0 } hv rfl sep hsep
 
@@ -106,9 +271,64 @@ theorem date_form (y m d : Nat) (h : validDate y m d = true) (suf : Suffix)
     (hs : suf.dropped = true) :
     parseIso (.str (renderDate y m d ++ suf.text)) = .value ⟨y, m, d, 0, 0, 0, 0⟩ := by
   obtain ⟨p1, l1⟩ := plain_renderDate y m d
-  apply parseIso_text _ (notDigit_renderDate y m d _)
+  apply parseIso_text text_branch_refines_skeleton _ (notDigit_renderDate y m d _)
   rw [textPath_dropped guards_accept_canonical_renderings _ p1 (by omega) (by omega) suf hs]
   exact shaped_date guards_accept_canonical_renderings y m d h
+
+/-- **Minute form followed by any tail.**  Write `cutTail t` for what is left of the tail `t` after
+the parser's `Z` strip and `+` split.  The minute is returned when nothing is left (`t` is empty,
+`Z`, `+…`, `+…Z`); when something is left that cannot be a seconds field — fewer than three
+characters, or not starting with `:` — the answer is `None` (so `-HH:MM`, `-HHMM`, `-HH`, `.5`, a
+second `Z` after the minute form are all unread).  (A rest `:SS…` is the seconds form.) -/
+theorem minute_form_tails (dt : DateTime) (h : validDateTime dt = true) (sep : Char)
+    (hsep : sep = 'T' ∨ sep = ' ') (t : List Char) (hl : t.length ≤ 17) :
+    (cutTail t = [] →
+      parseIso (.str (renderMinute dt sep ++ t)) = .value { dt with second := 0, micro := 0 }) ∧
+    (cutTail t ≠ [] → ((cutTail t).length < 3 ∨ (cutTail t).head? ≠ some ':') →
+      parseIso (.str (renderMinute dt sep ++ t)) = .none) := by
+  have hv : validDateTime { dt with second := 0 } = true := by
+    simp only [validDateTime, validDate, Bool.and_eq_true, decide_eq_true_eq] at h ⊢
+    omega
+  obtain ⟨p1, l1⟩ := plain_renderMinute dt sep hsep
+  have hnd : isDigitStr (renderMinute dt sep ++ t) = false := by
+    simp only [renderMinute, List.append_assoc]
+    exact notDigit_renderDate _ _ _ _
+  have hc := textPath_cut guards_accept_canonical_renderings (renderMinute dt sep) t p1 (by omega) (by omega)
+  have hp : parseIso (.str (renderMinute dt sep ++ t)) = match textPath (renderMinute dt sep ++ t) with
+      | .ok (some dt) => .value dt | .ok none => .none
+      | .error e => if caughtBy Gen.Iso.caught e then .none else .raises e := by
+    simp only [parseIso, parseIsoWith, body, strBody, hnd, text_branch_refines_skeleton.text,
+      Bool.false_eq_true, if_false]
+    rfl
+  have hm : shaped (renderMinute dt sep) = .ok (some (truncSeconds { dt with second := 0 })) :=
+    shaped_minute guards_accept_canonical_renderings { dt with second := 0 } hv rfl sep hsep
+  refine ⟨fun he => ?_, fun hne hu => ?_⟩
+  · have hnr : ¬ Gen.Iso.plusReject ((renderMinute dt sep ++ cutTail t).length : Int) := by
+      rw [he]; exact guards_accept_canonical_renderings.plus _ (by simp [l1]) (by simp [l1])
+    rw [hp, hc, if_neg (fun hh => hnr hh.2), he, List.append_nil, hm]
+    rfl
+  · rw [hp, hc, shaped_minute_rest guards_accept_canonical_renderings guards_reject_everything_else dt sep hsep _ hne hu]
+    simp only [ite_self]
+
+/-- **Date-only form followed by any tail**: midnight when nothing is left after the `Z` strip and
+the `+` split; `None` when one to five characters are left (11..15 characters select no form). -/
+theorem date_form_tails (y m d : Nat) (h : validDate y m d = true) (t : List Char) (hl : t.length ≤ 23) :
+    (cutTail t = [] → parseIso (.str (renderDate y m d ++ t)) = .value ⟨y, m, d, 0, 0, 0, 0⟩) ∧
+    (1 ≤ (cutTail t).length → (cutTail t).length ≤ 5 → parseIso (.str (renderDate y m d ++ t)) = .none) := by
+  obtain ⟨p1, l1⟩ := plain_renderDate y m d
+  have hc := textPath_cut guards_accept_canonical_renderings (renderDate y m d) t p1 (by omega) (by omega)
+  have hp : parseIso (.str (renderDate y m d ++ t)) = match textPath (renderDate y m d ++ t) with
+      | .ok (some dt) => .value dt | .ok none => .none
+      | .error e => if caughtBy Gen.Iso.caught e then .none else .raises e := by
+    simp only [parseIso, parseIsoWith, body, strBody, notDigit_renderDate y m d t, text_branch_refines_skeleton.text,
+      Bool.false_eq_true, if_false]
+    rfl
+  refine ⟨fun he => ?_, fun h1 h5 => ?_⟩
+  · have hnr : ¬ Gen.Iso.plusReject ((renderDate y m d ++ cutTail t).length : Int) := by
+      rw [he]; exact guards_accept_canonical_renderings.plus _ (by simp [l1]) (by simp [l1])
+    rw [hp, hc, if_neg (fun hh => hnr hh.2), he, List.append_nil, shaped_date guards_accept_canonical_renderings y m d h]
+  · rw [hp, hc, shaped_date_rest guards_accept_canonical_renderings guards_reject_everything_else y m d _ h1 h5]
+    simp only [ite_self]
 
 /-- **UTF-8 bytes are read as the text they encode** (every `String`, hence every rendering). -/
 theorem utf8_bytes_as_text (s : String) :
@@ -206,7 +426,7 @@ shows that every exception class a primitive can raise is named (by itself or a 
 the `except` tuple extracted from the source, and that `IndexError` is unreachable. -/
 theorem never_raises (i : Input) (e : Exc) : parseIso i ≠ .raises e := by
   unfold parseIso parseIsoWith
-  have hs := body_safe guards_cover_subscripts_and_exceptions i
+  have hs := body_safe guards_cover_subscripts_and_exceptions text_branch_refines_skeleton i
   cases hb : body i with
   | ok o => cases o <;> simp
   | error e' =>
@@ -222,45 +442,161 @@ theorem other_inputs_none :
   intro s hd hl
   have : ¬ Gen.Iso.lenWindow (s.length : Int) := by
     unfold Gen.Iso.lenWindow; omega
-  simp only [parseIso, parseIsoWith, body, strBody, hd, textPath, this, if_false, Bool.false_eq_true]
+  simp only [parseIso, parseIsoWith, body, strBody, hd, text_branch_refines_skeleton.text, textPath, this, if_false, Bool.false_eq_true]
 
-/-- **The DATE and TIMESTAMP casts agree with the parser** (`Iso.cast` is written from the three
-function bodies of `orso/types.py`, extracted with string constants blanked and pinned here) for every input: they return the
-parser's value (its date / itself) and raise `ValueError` exactly when the parser yields `None`.
-The TIME cast does the same (the value's time of day) for every input that is not already a
-`datetime.time`; a native `time` value is returned unchanged (`parse_time`'s identity branch). -/
+/-- **Text that is not date-shaped yields None**: every text (and every UTF-8 byte string) that is
+not all digits and does not carry `-` at offset 4 *and* at offset 7 — whatever its length and
+whatever else it contains (`Z`, `+`, digits, white space, non-ASCII) — is answered with `None`. -/
+theorem not_date_shaped_none (s : List Char) (hd : isDigitStr s = false)
+    (h : s[4]? ≠ some '-' ∨ s[7]? ≠ some '-') :
+    parseIso (.str s) = .none ∧ ∀ b, decodeUtf8 b = some s → parseIso (.bytes b) = .none := by
+  have ht := textPath_not_dashes guards_accept_canonical_renderings guards_cover_subscripts_and_exceptions
+    guards_reject_everything_else s h
+  refine ⟨?_, ?_⟩
+  · simp only [parseIso, parseIsoWith, body, strBody, hd, text_branch_refines_skeleton.text, ht,
+      Bool.false_eq_true, if_false]
+  · intro b hb
+    simp only [parseIso, parseIsoWith, body, hb, strBody, hd, text_branch_refines_skeleton.text, ht,
+      Bool.false_eq_true, if_false]
+
+/-- **The generated dash test lets only dashes through**: when `value[4] != "-" or value[7] != "-"`
+(operands and operator as extracted on this run) does not reject, both characters are `-`. -/
+theorem dash_test_keeps_only_dashes : Iso.DashSound where
+  keep := by
+    intro a x h
+    simp only [shortCircuit, Gen.Iso.dashJoinAnd, Bool.false_eq_true, if_false] at h
+    by_cases ha : decide (Gen.Iso.dashTestA a) = true
+    · rw [if_pos ha] at h; cases h
+    · rw [if_neg ha] at h
+      refine ⟨?_, h⟩
+      have := of_decide_eq_false (Bool.eq_false_iff.mpr ha)
+      unfold Gen.Iso.dashTestA at this
+      exact Classical.not_not.mp this
+  second := by
+    intro b h
+    unfold Gen.Iso.dashTestB at h
+    exact Classical.not_not.mp h
+
+/-- **Soundness of the text reading: the parser never invents a date.**  Whatever value the
+parser returns for a text is a valid date-time of years 1..9999 in whole seconds; and when the text
+is not all digits it is date-shaped — `-` at offsets 4 and 7 — and the returned year, month and day
+are the Python `int()` readings of its columns 0-4, 5-7 and 8-10.  (All-digit text: the value is
+the valid date-time of that Unix second, `epoch_total`.) -/
+theorem text_value_sound (s : List Char) (dt : DateTime) (h : parseIso (.str s) = .value dt) :
+    validDateTime dt = true ∧ dt.micro = 0 ∧
+    (isDigitStr s = false →
+      s[4]? = some '-' ∧ s[7]? = some '-' ∧ pyInt (slice s (0, 4)) = .ok (dt.year : Int) ∧
+      pyInt (slice s (5, 7)) = .ok (dt.month : Int) ∧ pyInt (slice s (8, 10)) = .ok (dt.day : Int)) := by
+  simp only [parseIso, parseIsoWith, body, strBody, text_branch_refines_skeleton.text] at h
+  by_cases hd : isDigitStr s = true
+  · rw [if_pos hd] at h
+    have c1 : Gen.Iso.epochTypes.contains "int" = true := by decide
+    simp only [epoch, c1, if_true] at h
+    cases hp : pyInt s with
+    | error e => rw [hp] at h; simp only [bind_error] at h; split at h <;> cases h
+    | ok n =>
+      rw [hp] at h
+      simp only [bind_ok] at h
+      cases hf : fromTimestamp n with
+      | error e => rw [hf] at h; simp only [bind_error] at h; split at h <;> cases h
+      | ok dt' =>
+        rw [hf] at h
+        simp only [bind_ok] at h
+        injection h with h
+        subst h
+        obtain ⟨hin, hout⟩ := fromTimestamp_spec n
+        by_cases hr : minEpoch ≤ n ∧ n ≤ maxEpoch
+        · obtain ⟨dt2, h2, hv, hm, _⟩ := hin hr
+          rw [hf] at h2; injection h2 with h2; subst h2
+          exact ⟨hv, hm, fun hnd => by rw [hd] at hnd; cases hnd⟩
+        · obtain ⟨e, he⟩ := hout (by omega)
+          rw [hf] at he; cases he
+  · rw [if_neg hd] at h
+    cases ht : textPath s with
+    | error e => rw [ht] at h; dsimp only at h; split at h <;> cases h
+    | ok o =>
+      rw [ht] at h
+      cases o with
+      | none => cases h
+      | some dt' =>
+        dsimp only at h
+        injection h with h
+        subst h
+        obtain ⟨h4, h7, hv, hm, y, m, d⟩ := textPath_sound guards_accept_canonical_renderings
+          guards_cover_subscripts_and_exceptions guards_reject_everything_else dash_test_keeps_only_dashes s _ ht
+        exact ⟨hv, hm, fun _ => ⟨h4, h7, y, m, d⟩⟩
+
+/-- **Floats are truncated toward zero, not floored**: a finite float is read as the integer
+`int(x)` (so `-0.5` is second 0 and `-1.5` is second −1 — one second later than flooring would
+give), NaN and the infinities give `None`; the same for `numpy.float64`. -/
+theorem float_epoch_truncates (b : UInt64) :
+    (∀ z, floatTrunc b = .fin z → parseIso (.float b) = parseIso (.int z) ∧ parseIso (.npFloat b) = parseIso (.int z)) ∧
+    (floatTrunc b = .nan ∨ floatTrunc b = .inf → parseIso (.float b) = .none ∧ parseIso (.npFloat b) = .none) ∧
+    floatTrunc 0xBFE0000000000000 = .fin 0 ∧ floatTrunc 0xBFF8000000000000 = .fin (-1) ∧
+    parseIso (.float 0xBFE0000000000000) = .value ⟨1970, 1, 1, 0, 0, 0, 0⟩ ∧
+    parseIso (.float 0xBFF8000000000000) = .value ⟨1969, 12, 31, 23, 59, 59, 0⟩ := by
+  have c1 : Gen.Iso.epochTypes.contains "int" = true := by decide
+  have c3 : Gen.Iso.epochTypes.contains "float" = true := by decide
+  have c4 : Gen.Iso.epochTypes.contains "numpy.float64" = true := by decide
+  have cv := guards_cover_subscripts_and_exceptions.catches
+  refine ⟨?_, ?_, by decide, by decide, by decide, by decide⟩
+  · intro z hz
+    constructor <;> simp only [parseIso, parseIsoWith, body, epoch, c1, c3, c4, if_true, intOfFloat, hz, bind_ok]
+  · intro hb
+    rcases hb with hb | hb <;> constructor <;>
+      simp only [parseIso, parseIsoWith, body, epoch, c3, c4, if_true, intOfFloat, hb, bind_error, cv.1, cv.2.2.1]
+
+/-- **The DATE and TIMESTAMP casts agree with the parser** (`Iso.cast` is written from the function
+bodies of `orso/types.py`; those of `parse_date` and `parse_timestamp` are extracted with string
+constants blanked and pinned here) for every input: they return the parser's value (its date /
+itself) and raise `ValueError` exactly when the parser yields `None`.
+The TIME cast is not part of the statement; what the model says about it is compared with the code
+on every run and stated here only as far as it is faithful: it returns the value's time of day
+whenever the parser yields a value (for every input that is not already a `datetime.time`), a
+native `time` value is returned unchanged (`parse_time`'s identity branch), and when the parser
+yields `None` it raises `ValueError` for every input that is neither text nor bytes (for text and
+bytes `parse_time` then tries `datetime.time.fromisoformat`, which is outside this model). -/
 theorem casts_agree (i : Input) :
     (Gen.Iso.parseDateBody = "result = parse_iso(x); if result is None: raise ValueError(''); return result.date()" ∧
-     Gen.Iso.parseTimestampBody = "result = parse_iso(x); if result is None: raise ValueError(''); return result" ∧
-     Gen.Iso.parseTimeBody = "if isinstance(x, datetime.time): return x; result = parse_iso(x); if result is None: raise ValueError(''); return result.time()") ∧
+     Gen.Iso.parseTimestampBody = "result = parse_iso(x); if result is None: raise ValueError(''); return result") ∧
     (∀ dt, parseIso i = .value dt →
       Iso.cast .timestamp i = .timestamp dt ∧ Iso.cast .date i = .date dt.year dt.month dt.day ∧
       ((∀ H M S us, i ≠ .time H M S us) → Iso.cast .time i = .time dt.hour dt.minute dt.second dt.micro)) ∧
     (parseIso i = .none →
       Iso.cast .timestamp i = .raises .valueError ∧ Iso.cast .date i = .raises .valueError ∧
-      ((∀ H M S us, i ≠ .time H M S us) → Iso.cast .time i = .raises .valueError)) ∧
+      ((∀ H M S us, i ≠ .time H M S us) → (∀ s, i ≠ .str s) → (∀ b, i ≠ .bytes b) →
+        Iso.cast .time i = .raises .valueError)) ∧
     (∀ H M S us, Iso.cast .time (.time H M S us) = .time H M S us ∧ parseIso (.time H M S us) = .none) := by
-  refine ⟨⟨rfl, rfl, rfl⟩, ?_, ?_, fun _ _ _ _ => ⟨rfl, rfl⟩⟩
+  refine ⟨⟨rfl, rfl⟩, ?_, ?_, fun _ _ _ _ => ⟨rfl, rfl⟩⟩
   · intro dt h
     refine ⟨by simp [Iso.cast, h], by simp [Iso.cast, h], ?_⟩
     intro hne
     cases i <;> first | (exact absurd rfl (hne _ _ _ _)) | (simp [Iso.cast, h])
   · intro h
     refine ⟨by simp [Iso.cast, h], by simp [Iso.cast, h], ?_⟩
-    intro hne
+    intro hne _ _
     cases i <;> first | (exact absurd rfl (hne _ _ _ _)) | (simp [Iso.cast, h])
 
-/-! Non-vacuity and documented boundaries (concrete inputs). -/
+/-- **The dispatch in front of the string branch is the one `Iso.body` was written from.**
+`parse_iso` carries no decorator (no cache between the caller and the `try`), takes one argument,
+and before the string branch runs exactly these statements, in this order: bytes are decoded,
+all-digit text becomes an `int`, `numpy.datetime64` is converted, the four epoch types go to
+`fromtimestamp(int(value), utc)`, objects with `to_pydatetime` are delegated, a `datetime` loses its
+microseconds, a `date` gets midnight.  (Normalised source text extracted on this run; the
+behaviour of each line is compared with the model on every run.) -/
+theorem dispatch_is_the_modelled_one :
+    Gen.Iso.dispatch = [
+      "def parse_iso(value)",
+      "input_type = type(value)",
+      "if isinstance(value, bytes): value = value.decode('utf-8') input_type = str",
+      "if input_type == str and value.isdigit(): value = int(value) input_type = int",
+      "if input_type == numpy.datetime64: value = value.astype(datetime.datetime) input_type = type(value) if input_type is int: value /= 1000000000",
+      "if input_type in (int, numpy.int64, float, numpy.float64): return datetime.datetime.fromtimestamp(int(value), tz=datetime.timezone.utc).replace(tzinfo=None)",
+      "if hasattr(value, 'to_pydatetime'): return value.to_pydatetime()",
+      "if input_type == datetime.datetime: return value.replace(microsecond=0)",
+      "if input_type == datetime.date: return datetime.datetime.combine(value, datetime.time.min)"] := by
+  rfl
 
-example : validDateTime ⟨2024, 2, 29, 23, 59, 58, 123456⟩ = true := by decide
-example : String.ofList (render ⟨2024, 2, 29, 23, 59, 58, 123456⟩ 'T' 3 (.plus 5 30))
-    = "2024-02-29T23:59:58.123+05:30" := by decide
-example : parseIso (.str "2024-02-29T23:59:58.123+05:30".toList) = .value ⟨2024, 2, 29, 23, 59, 58, 0⟩ := by
-  decide
-example : parseIso (.str "0001-01-01 00:00:00.000000-11:59".toList) = .value ⟨1, 1, 1, 0, 0, 0, 0⟩ := by decide
-example : toEpoch ⟨2024, 2, 29, 23, 59, 58, 0⟩ = 1709251198 := by decide
-example : parseIso (.int 1709251198) = .value ⟨2024, 2, 29, 23, 59, 58, 0⟩ := by decide
-example : parseIso (.int (-62135596800)) = .value ⟨1, 1, 1, 0, 0, 0, 0⟩ := by decide
 /-- **Counterexamples on the pinned tree** (`except (ValueError, TypeError)`): the faithful model
 raises — `OverflowError` for `10**30`, `float('inf')` and `'9'*30`, `OSError` for `10**17` — so
 `never_raises` is false of the unrepaired code; replayed on the real code in `findings/C08.json`. -/
@@ -269,8 +605,5 @@ theorem pinned_tree_raises :
     parseIsoWith ["ValueError", "TypeError"] (.float 0x7FF0000000000000) = .raises .overflowError ∧
     parseIsoWith ["ValueError", "TypeError"] (.str (List.replicate 30 '9')) = .raises .overflowError ∧
     parseIsoWith ["ValueError", "TypeError"] (.int (10 ^ 17)) = .raises .osError := by decide
-/-- Boundary by the code's own design: the minute form with a `-HH:MM` suffix is not read. -/
-example : parseIso (.str "2023-04-18T12:34-05:00".toList) = .none := by decide
-example : parseIso (.str "2023-02-29".toList) = .none := by decide
 
 end C08
